@@ -209,7 +209,7 @@ var c01Bundles = map[string]c01Bundle{
 	// balanced columns whose children have fractional heights (the balancing loop adds the smallest lost space to the height)
 	"columns-fractional": {tag: "div", decl: "columns:2;column-gap:0", inner: `<div style="height:3.3px"></div><div style="height:3.3px"></div><div style="height:3.3px"></div><div style="height:3.3px"></div><div style="height:3.3px"></div><div style="height:7.7px"></div><div style="height:0.1px"></div><p style="line-height:3.7px;font-size:3px">a b c d e f g h i j</p>`, void: true},
 	// font-relative lengths in properties the text measurement itself reads; leaders made of glyphs narrower than a pixel
-	"tab-size-ch":  {tag: "p", decl: "tab-size:4ch;white-space:pre;letter-spacing:1ex;word-spacing:2ch", text: "a\tb c"},
+	"tab-size-ch":  {tag: "p", decl: "tab-size:4ch;white-space:pre;letter-spacing:1ex;word-spacing:2ch;hyphenate-limit-zone:1ex;hyphens:auto", text: "a\tb c"},
 	"leader-tiny":  {tag: "a", attrs: `href="#t"`, rules: `%s::after{content:leader('.') target-counter(attr(href), page);font-size:0.5px}%s::before{content:leader(dotted);font-size:0.3px}`},
 	"full-list":      {tag: "ol", attrs: `start="3"`, decl: "list-style:upper-roman outside;margin-left:20px", inner: `<li>item 1</li><li>item 2</li><li>item 3</li><li>item 4</li><li>item 5</li><li>item 6</li><li><ul><li>n1<li>n2</ul></li>`, void: true},
 	"full-flex":      {tag: "div", decl: "display:flex;flex-wrap:wrap;gap:2px;align-items:center", inner: `<div style="flex:1 0 40px">f1 f1</div><div style="flex:2 1 30px;order:-1">f2</div><div style="width:50px;height:40px">f3</div><div style="margin:auto">f4</div><div style="flex-basis:100%">f5 f5 f5 f5</div>`, void: true},
